@@ -258,7 +258,9 @@ def run_job(job, ctx):
             elif st != 'SUCCESS':
                 res.reason += 'witness %s status %s; ' % (d, st)
         else:
-            if st == 'FAILURE':
+            if st == 'FAILURE' and d.startswith('unwinding assertion'):
+                res.reason += 'unwinding bound too small (%s %s): not a verdict; ' % (p.get('property'), d)
+            elif st == 'FAILURE':
                 failed.append((p.get('property'), d))
             elif st != 'SUCCESS':
                 res.reason += 'property %s status %s; ' % (p.get('property'), st)
